@@ -86,7 +86,7 @@ class C09:
         long_cases.append(hist_case(1, True, [["add", 1, 2, 0, 9100], ["add", 2, 1, 40, 45]], src="corpus-long"))
         import itertools as _it
         for c in _it.chain(long_cases, file_only_cases(rng), io_histories(tier, rng, n)):
-            c["io"] = [k % 4, (k // 4) % 12, (k // 48) % 2]   # target, delimiter, encoding: all 96 combinations cycle
+            c["io"] = [k % 4, (k // 4) % 12, (k // 48) % 4]   # target, delimiter, encoding: all 192 combinations cycle
             if c.get("fileonly"):
                 c["io"] = [k % 4, 1 + k % 3, 0]             # explicit non-blank delimiter, utf-8
             k += 1
@@ -218,7 +218,7 @@ class C10:
                       for d, m in ((0, 620), (1, 2200))]
         import itertools as _it
         for c in _it.chain(long_cases, file_only_cases(rng), io_histories(tier, rng, n)):
-            c["io"] = [k % 4, (k // 4) % 12, (k // 48) % 2]   # target, delimiter, encoding: all 96 combinations cycle
+            c["io"] = [k % 4, (k // 4) % 12, (k // 48) % 4]   # target, delimiter, encoding: all 192 combinations cycle
             if c.get("fileonly"):
                 c["io"] = [k % 4, 1 + k % 3, 0]
             c["log"] = random_log(rng, bool(c["cls"]))
